@@ -216,6 +216,8 @@ def check_flush(ctx, num=3, only=None):
                 return True
             if z[0] == "truth" and z[2] is True and z[1] in le and cnt.get(z[1]) == 1 and depth < 2:
                 return _justifies(norm.nnf(le[z[1]]), depth + 1)
+            if z[0] == "truth" and z[2] is False and z[1] in le and cnt.get(z[1]) == 1 and depth < 2:
+                return _justifies(norm.neg(norm.nnf(le[z[1]])), depth + 1)     # `open_ = cur is not None … if not open_:` says `cur is None`
             if z[0] == "or":
                 return all(_justifies(k, depth) for k in z[1])
             if z[0] == "and":
